@@ -415,13 +415,11 @@ def grid_known_region(cfg, rid, active):
     _, params, ret = G.ROWS[rid]
     es = [(t, d) for _, t, _, d in params] + ([(ret[0], ret[2])] if ret else [])
     code = lambda d: isinstance(d, str) and d.startswith("```") and d != NoneStr  # noqa: E731
-    if any(t == "Union[int, str]" and d == 3 for t, d in es):
-        return "KF-RT-quote-nonstr-default"  # the emitters crash on it
     if cfg in ("execcls", "bindcls"):
         if any(t in ("int", "str", "float", "bool") and d == NoneStr for t, d in es):
             return "KF-RT-class-none-to-zero"
-        if any(isinstance(d, str) and d == "" for t, d in es):
-            return "KF-RT-empty-str-default"
+        if any(isinstance(d, str) and d == "" and t == "Optional[str]" for t, d in es):
+            return "KF-RT-class-empty-str-to-none"
     if cfg == "execarg" and any(code(d) for t, d in es):
         return "KF-C06-code-default-as-str"
     return None
